@@ -445,6 +445,11 @@ class Model:
         if kind in TRACTABLE:
             mkind = spec.get("metric", "none")
             self.metric_arg, self.metric_dense = const_metric(mkind, dim, _rng(seed, 12))
+            sc = float(spec.get("metric_scale", 1.0))
+            if sc != 1.0 and isinstance(self.metric_arg, np.ndarray):
+                # raw array metrics of very small / large overall scale (precision of a target with huge / tiny spread)
+                self.metric_arg = self.metric_arg * sc
+                self.metric_dense = self.metric_dense * sc
         if kind == "euclidean":
             self.system = mici.systems.EuclideanMetricSystem(neg_log_dens, metric=self.metric_arg, grad_neg_log_dens=grad)
         elif kind == "gaussian":
